@@ -41,6 +41,26 @@ void obs_snapshot(int slot) {
     for (i = 0; i < n; i++) snap[slot][i] = p[i];
     have[slot] = 1;
 }
+void obs_pretouch(void) {          /* make the stack pages below exist and free of old copies of the pattern */
+    volatile char big[32768];
+    size_t i;
+    for (i = 0; i < sizeof big; i++) big[i] = 0;
+}
+void obs_scan_stack(int slot, size_t len) {   /* look for the first 16 bytes of the secret in the dead part of the stack */
+    volatile char here;
+    const volatile unsigned char *top = (const volatile unsigned char *)((unsigned long)&here & ~15UL);
+    const volatile unsigned char *p;
+    have[slot] = 2;                            /* 2 = the buffer was never materialised in memory */
+    for (p = top - 24576; p + len <= top - 64; p += 16) {
+        size_t i;
+        for (i = 0; i < 16; i++) if (p[i] != (unsigned char)(1 + (i * 7) % 97)) break;
+        if (i == 16) {
+            reg[slot] = p; reglen[slot] = len;
+            obs_snapshot(slot);
+            return;
+        }
+    }
+}
 extern void __real_free(void *p);
 void __wrap_free(void *p) {
     if (p && p == (void *)reg[1] && !have[1]) obs_snapshot(1);
